@@ -10,7 +10,7 @@ ID_POOL = ['a', 'b', 'c', 'x1', 'toe', 'd12', 'A', 'B', 'Cplx', 'long_name-1', '
            'reaction-2', 'state', 'states', 'macrostate', 'length-']
 CUNITS = ['M', 'mM', 'uM', 'nM', 'pM']
 TUNITS = ['s', 'm', 'h']
-RTYPES = ['bind21', 'bind11', 'open', 'condensed', 'branch-3way', 'branch-4way', 'foo']
+RTYPES = ['bind21', 'bind11', 'open', 'condensed', 'branch-3way', 'branch-4way', 'foo', '3way', '21', '1-1_open', 'e5', '_x']
 
 
 def has_keyword_prefix(name):
